@@ -24,11 +24,11 @@ impl VMBinding for VerifVM {
     type VMMemorySlice = VSlice;
 
     const MIN_ALIGNMENT: usize = 8;
-    #[cfg(feature = "var_b")]
+    #[cfg(feature = "layout_b")]
     const MAX_ALIGNMENT: usize = 8;
-    #[cfg(feature = "var_a")]
+    #[cfg(feature = "layout_a")]
     const MAX_ALIGNMENT: usize = 16;
-    #[cfg(not(any(feature = "var_a", feature = "var_b")))]
+    #[cfg(feature = "layout_c")]
     const MAX_ALIGNMENT: usize = 32;
     const USE_ALLOCATION_OFFSET: bool = true;
 }
@@ -86,7 +86,7 @@ impl mmtk::vm::slot::MemorySlice for VSlice {
 // Metadata placement per build variant
 // ------------------------------------------------------------------------------------------------
 
-#[cfg(feature = "var_a")]
+#[cfg(feature = "layout_a")]
 mod specs {
     use mmtk::vm::*;
     // forwarding bits live inside the forwarding pointer word (single-store publish path)
@@ -99,19 +99,19 @@ mod specs {
     pub const LOS: VMLocalLOSMarkNurserySpec = VMLocalLOSMarkNurserySpec::in_header(56);
 }
 
-#[cfg(feature = "var_b")]
+#[cfg(feature = "layout_b")]
 mod specs {
     use mmtk::vm::*;
     pub const LOG: VMGlobalLogBitSpec = VMGlobalLogBitSpec::side_first();
-    pub const FWD_PTR: VMLocalForwardingPointerSpec = VMLocalForwardingPointerSpec::side_first();
-    pub const FWD_BITS: VMLocalForwardingBitsSpec =
-        VMLocalForwardingBitsSpec::side_after(FWD_PTR.as_spec());
+    // (a side forwarding pointer would make the side-metadata reservation ~145 TiB: ENOMEM here)
+    pub const FWD_PTR: VMLocalForwardingPointerSpec = VMLocalForwardingPointerSpec::in_header(0);
+    pub const FWD_BITS: VMLocalForwardingBitsSpec = VMLocalForwardingBitsSpec::side_first();
     pub const MARK: VMLocalMarkBitSpec = VMLocalMarkBitSpec::side_after(FWD_BITS.as_spec());
     pub const PIN: VMLocalPinningBitSpec = VMLocalPinningBitSpec::side_after(MARK.as_spec());
     pub const LOS: VMLocalLOSMarkNurserySpec = VMLocalLOSMarkNurserySpec::side_after(PIN.as_spec());
 }
 
-#[cfg(not(any(feature = "var_a", feature = "var_b")))]
+#[cfg(feature = "layout_c")]
 mod specs {
     use mmtk::vm::*;
     // header bits in the top byte of word1 (bits 120..127 of the header), forwarding pointer in
@@ -129,11 +129,11 @@ impl ObjectModel<VerifVM> for VerifVM {
     const LOCAL_FORWARDING_POINTER_SPEC: VMLocalForwardingPointerSpec = specs::FWD_PTR;
     const LOCAL_FORWARDING_BITS_SPEC: VMLocalForwardingBitsSpec = specs::FWD_BITS;
     const LOCAL_MARK_BIT_SPEC: VMLocalMarkBitSpec = specs::MARK;
-    #[cfg(any(feature = "var_a", feature = "var_c"))]
+    #[cfg(feature = "f_pin")]
     const LOCAL_PINNING_BIT_SPEC: VMLocalPinningBitSpec = specs::PIN;
     const LOCAL_LOS_MARK_NURSERY_SPEC: VMLocalLOSMarkNurserySpec = specs::LOS;
 
-    #[cfg(feature = "var_b")]
+    #[cfg(feature = "layout_b")]
     const UNIFIED_OBJECT_REFERENCE_ADDRESS: bool = true;
     const OBJECT_REF_OFFSET_LOWER_BOUND: isize = REF_OFFSET as isize;
 
